@@ -89,7 +89,19 @@ void Driver<O>::check_cycles(const ref::Reduction& r) {
           support.erase(it->second);  // over Z2 a repeated cell cancels
         }
       }
-      if (dup) ctx.hit("cycle-with-repeated-cell");
+      bool dup_excused = false;
+      if (dup) {
+        // known finding: with HEAP columns the cycle is a dump of the lazy heap (cancelled entries appear twice)
+        if (O::column_type == Column_types::HEAP && known("heap-raw-entries")) {
+          hit_excluded("heap-raw-entries");
+          dup_excused = true;
+        } else {
+          std::ostringstream o;
+          for (unsigned e : bc.raw) o << " " << e;
+          VF_CHECK(false, "cycle_repeated_cell",
+                   "bar (" << bc.dim << ":" << bc.b << "," << bc.d << ") cycle lists a cell twice:" << o.str());
+        }
+      }
       if constexpr (kZ2) {
         for (int c : support) bc.z[c] = 1;
       } else {
@@ -102,7 +114,7 @@ void Driver<O>::check_cycles(const ref::Reduction& r) {
         }
         std::set<int> cs;
         for (auto& kv : coef) cs.insert(kv.first);
-        VF_CHECK(!dup && cs == support, "cycle_support",
+        VF_CHECK(dup_excused || cs == support, "cycle_support",
                  "bar (" << bc.dim << ":" << bc.b << "," << bc.d << ") returned support differs from the exposed column "
                          << show(coef));
         bc.z = coef;
